@@ -121,11 +121,11 @@ struct o3 {
 		for (size_t i = 0; i < v.size();) {
 			if (v[i] != '&') { o += v[i++]; continue; }
 			size_t j = i + 1; std::string name;
-			while (j < v.size() && j - i < 12 && (isalnum((unsigned char)v[j]) || v[j] == '#')) name += v[j++];
+			while (j < v.size() && (j - i < 12 || name[0] == '#') && (isalnum((unsigned char)v[j]) || v[j] == '#')) name += v[j++];
 			bool semi = j < v.size() && v[j] == ';';
 			long cp = -1;
 			if (name == "amp") cp = '&'; else if (name == "lt") cp = '<'; else if (name == "gt") cp = '>'; else if (name == "quot") cp = '"'; else if (name == "apos") cp = '\'';
-			else if (name.size() > 1 && name[0] == '#') cp = (name[1] == 'x' || name[1] == 'X') ? strtol(name.c_str() + 2, 0, 16) : strtol(name.c_str() + 1, 0, 10);
+			else if (name.size() > 1 && name[0] == '#') { cp = (name[1] == 'x' || name[1] == 'X') ? strtol(name.c_str() + 2, 0, 16) : strtol(name.c_str() + 1, 0, 10); if (cp > 0x10FFFF) cp = 0xFFFD; }
 			if (cp < 0) { o += v[i++]; continue; }
 			if (cp < 0x80) o += (char)cp; else o += vref::utf8_enc((uint32_t)cp);
 			i = j + (semi ? 1 : 0);
@@ -175,7 +175,8 @@ struct o3 {
 			if (c == '>') return fail("bare-gt", "bare '>' in text", i);
 			if (c == '&') {
 				size_t j = i + 1; std::string name;
-				while (j < n && j - i < 40 && f[j] != ';' && f[j] != '&' && f[j] != '<' && !ws(f[j])) name += f[j++];
+				// (a numeric reference may carry any number of leading zeros: no length cap for those)
+				while (j < n && (j - i < 40 || (name.size() > 0 && name[0] == '#')) && f[j] != ';' && f[j] != '&' && f[j] != '<' && !ws(f[j])) name += f[j++];
 				if (j >= n || f[j] != ';') return fail("bare-amp", "bare '&'", i);
 				if (!name.empty() && name[0] == '#') {
 					if (!s.numeric) return fail("numeric-entity", "numeric entity although not allowed", i);
